@@ -81,11 +81,17 @@ class ExcelType:
         # Highjacking bitwise "or" to implement logical "or"
         return Boolean(bool(self) or bool(other))
 
+    # Reflected forms (a native on the left): subtraction and power are not
+    # commutative, their operands have to be swapped back.
+    def __rsub__(self, other):
+        return Number(Number.cast(other).value - Number.cast(self).value)
+
+    def __rpow__(self, other):
+        return Number(Number.cast(other).value ** Number.cast(self).value)
+
     __radd__ = __add__
-    __rsub__ = __sub__
     __rmul__ = __mul__
     __rtruediv__ = __truediv__
-    __rpow__ = __pow__
     __rand__ = __and__
     __ror__ = __or__
 
@@ -189,7 +195,8 @@ class Number(ExcelType):
     def __mod__(self, other):
         return Number(self.value % Number.cast(other).value)
 
-    __rmod__ = __mod__
+    def __rmod__(self, other):
+        return Number(Number.cast(other).value % self.value)
 
     def __neg__(self):
         return Number(self.value.__neg__())
